@@ -99,15 +99,146 @@ pub mod datalog2 {
     pub fn verif_shadows(values: &HashMap<u32, Term>, params: &Vec<u32>) -> (r: bool) ensures r == shadows(*values, params@) { unimplemented!() }
     impl Clone for StackElem { #[verifier::external_body] fn clone(&self) -> (r: Self) ensures r == *self { unimplemented!() } }
 
+    // ---- closures ------------------------------------------------------------------------------
+    // Rule A4 (recursive call as oracle): inside evaluate_with_closure the recursive evaluation of the closure
+    // body `e.evaluate(values, symbols, extern_func)` is replaced by `verif_eval_oracle(&e, ..)`: it returns what
+    // the uninterpreted function eval_res says for (ops, bindings, symbol-table state, extern functions) and moves the
+    // symbol table to sym_next(..). ASSUMED: evaluation is a function of those four arguments.
+    pub uninterp spec fn eval_res(ops: Seq<Op>, values: Map<u32, Term>, sym: TemporarySymbolTable, ext: HashMap<String, ExternFunc>) -> Result<Term, error::Expression>;
+    pub uninterp spec fn sym_next(ops: Seq<Op>, values: Map<u32, Term>, sym: TemporarySymbolTable, ext: HashMap<String, ExternFunc>) -> TemporarySymbolTable;
+    #[verifier::external_body]
+    pub fn verif_eval_oracle(e: &Expression, values: &HashMap<u32, Term>, symbols: &mut TemporarySymbolTable, ext: &HashMap<String, ExternFunc>) -> (r: Result<Term, error::Expression>)
+        ensures r == eval_res(e.ops@, values@, *old(symbols), *ext), *final(symbols) == sym_next(e.ops@, values@, *old(symbols), *ext)
+    { unimplemented!() }
+
+    // R21: slice patterns `[]` / `[p]`
+    pub enum VerifSlice1<'a, T> { Empty, One(&'a T), Many }
+    #[verifier::external_body]
+    pub fn verif_slice1<'a, T>(s: &'a [T]) -> (r: VerifSlice1<'a, T>)
+        ensures match r { VerifSlice1::Empty => s@.len() == 0, VerifSlice1::One(x) => s@.len() == 1 && *x == s@[0], VerifSlice1::Many => s@.len() >= 2 }
+    { match s { [] => VerifSlice1::Empty, [x] => VerifSlice1::One(x), _ => VerifSlice1::Many } }
+
+    // iteration order of a set / a map (ASSUMED: BTreeSet::iter / BTreeMap::iter enumerate exactly these sequences)
+    pub uninterp spec fn set_elems(s: BTreeSet<Term>) -> Seq<Term>;
+    pub uninterp spec fn map_elems(m: BTreeMap<MapKey, Term>) -> Seq<Term>;
+    pub uninterp spec fn pair_term(k: Term, v: Term) -> Term;      // the two-element array [key, value]
+    pub open spec fn key_term(k: MapKey) -> Term { match k { MapKey::Integer(i) => Term::Integer(i), MapKey::Str(i) => Term::Str(i) } }
+    #[verifier::external_body]
+    pub fn verif_pair_term(k: Term, v: Term) -> (r: Term) ensures r == pair_term(k, v) { unimplemented!() }
+
+    #[verifier::external_body]
+    #[verifier::reject_recursive_types(T)]
+    pub struct VerifSeqIter<T> { _p: core::marker::PhantomData<T> }
+    pub uninterp spec fn verif_seq_rem<T>(it: VerifSeqIter<T>) -> Seq<T>;
+    impl<T> Iterator for VerifSeqIter<T> {
+        type Item = T;
+        #[verifier::external_body]
+        fn next(&mut self) -> Option<T> { unimplemented!() }
+    }
+    impl<T> vstd::std_specs::iter::IteratorSpecImpl for VerifSeqIter<T> {
+        open spec fn obeys_prophetic_iter_laws(&self) -> bool { true }
+        open spec fn remaining(&self) -> Seq<T> { verif_seq_rem(*self) }
+        open spec fn will_return_none(&self) -> bool { true }
+        open spec fn decrease(&self) -> Option<nat> { Some(verif_seq_rem(*self).len()) }
+        open spec fn peek(&self, i: int) -> Option<T> { if 0 <= i < verif_seq_rem(*self).len() { Some(verif_seq_rem(*self)[i]) } else { None } }
+    }
+    #[verifier::external_body]
+    pub fn verif_set_iter<'a>(s: &'a BTreeSet<Term>) -> (r: VerifSeqIter<&'a Term>)
+        ensures verif_seq_rem(r).len() == set_elems(*s).len(),
+                forall|i: int| 0 <= i < set_elems(*s).len() ==> *(#[trigger] verif_seq_rem(r)[i]) == set_elems(*s)[i]
+    { unimplemented!() }
+    #[verifier::external_body]
+    pub fn verif_map_iter<'a>(m: &'a BTreeMap<MapKey, Term>) -> (r: VerifSeqIter<(&'a MapKey, &'a Term)>)
+        ensures verif_seq_rem(r).len() == map_elems(*m).len(),
+                forall|i: int| 0 <= i < map_elems(*m).len() ==> pair_term(key_term(*(#[trigger] verif_seq_rem(r)[i]).0), *verif_seq_rem(r)[i].1) == map_elems(*m)[i]
+    { unimplemented!() }
+
+    // all / any over a sequence of elements: evaluate the body with exactly `p` bound to the element, in order,
+    // stop at the first element that decides; a non-boolean body is a type error; an error of the body is the result
+    pub open spec fn quant_spec(is_all: bool, elems: Seq<Term>, i: int, right: Seq<Op>, p: u32, values: Map<u32, Term>,
+                                sym: TemporarySymbolTable, ext: HashMap<String, ExternFunc>) -> Result<Term, error::Expression>
+        decreases elems.len() - i
+    {
+        if i < 0 || i >= elems.len() { Ok(Term::Bool(is_all)) }
+        else {
+            let v1 = values.insert(p, elems[i]);
+            match eval_res(right, v1, sym, ext) {
+                Err(e) => Err(e),
+                Ok(Term::Bool(b)) => if b == is_all { quant_spec(is_all, elems, i + 1, right, p, values, sym_next(right, v1, sym, ext), ext) }
+                                     else { Ok(Term::Bool(!is_all)) },
+                Ok(_) => Err(error::Expression::InvalidType),
+            }
+        }
+    }
+    // the closure-taking operators of the Biscuit specification
+    pub open spec fn closure_spec(op: Binary, left: Term, right: Seq<Op>, params: Seq<u32>, values: Map<u32, Term>,
+                                  sym: TemporarySymbolTable, ext: HashMap<String, ExternFunc>) -> Result<Term, error::Expression> {
+        if params.len() == 0 {
+            match (op, left) {
+                (Binary::LazyOr, Term::Bool(b)) => if b { Ok(Term::Bool(true)) } else { eval_res(right, values, sym, ext) },
+                (Binary::LazyAnd, Term::Bool(b)) => if !b { Ok(Term::Bool(false)) } else { eval_res(right, values, sym, ext) },
+                _ => Err(error::Expression::InvalidType),
+            }
+        } else if params.len() == 1 {
+            match (op, left) {
+                (Binary::All, Term::Set(s)) => quant_spec(true, set_elems(s), 0, right, params[0], values, sym, ext),
+                (Binary::Any, Term::Set(s)) => quant_spec(false, set_elems(s), 0, right, params[0], values, sym, ext),
+                (Binary::All, Term::Array(a)) => quant_spec(true, a@, 0, right, params[0], values, sym, ext),
+                (Binary::Any, Term::Array(a)) => quant_spec(false, a@, 0, right, params[0], values, sym, ext),
+                (Binary::All, Term::Map(m)) => quant_spec(true, map_elems(m), 0, right, params[0], values, sym, ext),
+                (Binary::Any, Term::Map(m)) => quant_spec(false, map_elems(m), 0, right, params[0], values, sym, ext),
+                _ => Err(error::Expression::InvalidType),
+            }
+        } else { Err(error::Expression::InvalidType) }
+    }
+
     impl Binary {
         //@extract biscuit-auth/src/datalog/expression.rs :: impl Binary :: fn evaluate_with_closure
-        //@ external_body
+        //@ rewrites R21
+        //@ attr #[verifier::loop_isolation(false)]
+        //@ sub e\.evaluate\(values, symbols, extern_func\) => verif_eval_oracle(&e, values, symbols, extern_func)
+        //@ sub set_values\.iter\(\) => verif_set_iter(&set_values)
+        //@ sub map\.iter\(\) => verif_map_iter(&map)
+        //@ sub Term::Array\(vec!\[key, value\.clone\(\)\]\) => verif_pair_term(key, value.clone())
+        //@ requires no_shadow: forall|i: int| 0 <= i < params@.len() ==> !old(values)@.contains_key(#[trigger] params@[i])
+        //@ ensures semantics: r == closure_spec(*self, left, right@, params@, old(values)@, *old(symbols), *extern_func)
+        //@ ensures bindings_restored: final(values)@ == old(values)@
+        //@ loop 0 ghost it
+        //@ ghost loop 0 end :: proof { assert(values@ =~= old(values)@); }
+        //@ loop 0 invariant frame: values@ == old(values)@ && !values@.contains_key(*param)
+        //@ loop 0 invariant elems: it.seq().len() == set_elems(set_values).len() && forall|k: int| 0 <= k < it.seq().len() ==> *(#[trigger] it.seq()[k]) == set_elems(set_values)[k]
+        //@ loop 0 invariant spec: quant_spec(true, set_elems(set_values), 0, right@, *param, old(values)@, *old(symbols), *extern_func) == quant_spec(true, set_elems(set_values), it.index@, right@, *param, values@, *symbols, *extern_func)
+        //@ loop 1 ghost it
+        //@ ghost loop 1 end :: proof { assert(values@ =~= old(values)@); }
+        //@ loop 1 invariant frame: values@ == old(values)@ && !values@.contains_key(*param)
+        //@ loop 1 invariant elems: it.seq().len() == set_elems(set_values).len() && forall|k: int| 0 <= k < it.seq().len() ==> *(#[trigger] it.seq()[k]) == set_elems(set_values)[k]
+        //@ loop 1 invariant spec: quant_spec(false, set_elems(set_values), 0, right@, *param, old(values)@, *old(symbols), *extern_func) == quant_spec(false, set_elems(set_values), it.index@, right@, *param, values@, *symbols, *extern_func)
+        //@ loop 2 ghost it
+        //@ ghost loop 2 end :: proof { assert(values@ =~= old(values)@); }
+        //@ loop 2 invariant frame: values@ == old(values)@ && !values@.contains_key(*param)
+        //@ loop 2 invariant elems: it.seq().len() == array@.len() && forall|k: int| 0 <= k < it.seq().len() ==> *(#[trigger] it.seq()[k]) == array@[k]
+        //@ loop 2 invariant spec: quant_spec(true, array@, 0, right@, *param, old(values)@, *old(symbols), *extern_func) == quant_spec(true, array@, it.index@, right@, *param, values@, *symbols, *extern_func)
+        //@ loop 3 ghost it
+        //@ ghost loop 3 end :: proof { assert(values@ =~= old(values)@); }
+        //@ loop 3 invariant frame: values@ == old(values)@ && !values@.contains_key(*param)
+        //@ loop 3 invariant elems: it.seq().len() == array@.len() && forall|k: int| 0 <= k < it.seq().len() ==> *(#[trigger] it.seq()[k]) == array@[k]
+        //@ loop 3 invariant spec: quant_spec(false, array@, 0, right@, *param, old(values)@, *old(symbols), *extern_func) == quant_spec(false, array@, it.index@, right@, *param, values@, *symbols, *extern_func)
+        //@ loop 4 ghost it
+        //@ ghost loop 4 end :: proof { assert(values@ =~= old(values)@); }
+        //@ loop 4 invariant frame: values@ == old(values)@ && !values@.contains_key(*param)
+        //@ loop 4 invariant elems: it.seq().len() == map_elems(map).len() && forall|k: int| 0 <= k < it.seq().len() ==> pair_term(key_term(*(#[trigger] it.seq()[k]).0), *it.seq()[k].1) == map_elems(map)[k]
+        //@ loop 4 invariant spec: quant_spec(true, map_elems(map), 0, right@, *param, old(values)@, *old(symbols), *extern_func) == quant_spec(true, map_elems(map), it.index@, right@, *param, values@, *symbols, *extern_func)
+        //@ loop 5 ghost it
+        //@ ghost loop 5 end :: proof { assert(values@ =~= old(values)@); }
+        //@ loop 5 invariant frame: values@ == old(values)@ && !values@.contains_key(*param)
+        //@ loop 5 invariant elems: it.seq().len() == map_elems(map).len() && forall|k: int| 0 <= k < it.seq().len() ==> pair_term(key_term(*(#[trigger] it.seq()[k]).0), *it.seq()[k].1) == map_elems(map)[k]
+        //@ loop 5 invariant spec: quant_spec(false, map_elems(map), 0, right@, *param, old(values)@, *old(symbols), *extern_func) == quant_spec(false, map_elems(map), it.index@, right@, *param, values@, *symbols, *extern_func)
         //@end
     }
     impl Expression {
         //@extract biscuit-auth/src/datalog/expression.rs :: impl Expression :: fn evaluate
         //@ attr #[verifier::exec_allows_no_decreases_clause]
-        //@ sub values\s*\.keys\(\)\s*\.collect::<HashSet<_>>\(\)\s*\.intersection\(&params\.iter\(\)\.collect\(\)\)\s*\.next\(\)\s*\.is_some\(\) => verif_shadows(values, &params)
+        //@ sub_unless_gone ShadowedVariable :: values\s*\.keys\(\)\s*\.collect::<HashSet<_>>\(\)\s*\.intersection\(&params\.iter\(\)\.collect\(\)\)\s*\.next\(\)\s*\.is_some\(\) => verif_shadows(values, &params)
         //@ ensures empty: self.ops@.len() == 0 ==> r == Err::<Term, error::Expression>(error::Expression::InvalidStack)
         //@ loop 0 ghost it
         //@ loop 0 invariant seq: it.seq().len() == self.ops@.len() && forall|i: int| 0 <= i < self.ops@.len() ==> *(#[trigger] it.seq()[i]) == self.ops@[i]
@@ -167,5 +298,11 @@ pub mod espec {
 //@canary heterogeneous-catch-all :: datalog::expression::Binary::evaluate :: (Binary::HeterogeneousEqual, _, _) => Ok(Term::Bool(false)), ==>> (Binary::HeterogeneousEqual, _, _) => Ok(Term::Bool(true)),
 //@canary final-stack :: datalog::expression::Expression::evaluate :: if stack.len() == 1 { ==>> if stack.len() <= 1 {
 //@canary negate-untyped :: datalog::expression::Unary::evaluate :: (Unary::Negate, Term::Bool(b)) => Ok(Term::Bool(!b)), ==>> (Unary::Negate, Term::Bool(b)) => Ok(Term::Bool(!b)), (Unary::Negate, Term::Integer(b)) => Ok(Term::Integer(b)),
+//@canary closure-binding-not-removed :: datalog::expression::Binary::evaluate_with_closure :: values.remove(param);\n                    match result? {\n                        Term::Bool(true) => {} ==>> match result? {\n                        Term::Bool(true) => {}
+//@canary lazy-or-not-lazy :: datalog::expression::Binary::evaluate_with_closure :: (Binary::LazyOr, Term::Bool(true), []) => Ok(Term::Bool(true)), ==>> (Binary::LazyOr, Term::Bool(true), []) => { let e = Expression { ops: right.clone() }; e.evaluate(values, symbols, extern_func) }
+//@canary any-empty-true :: datalog::expression::Binary::evaluate_with_closure :: Ok(Term::Bool(false))\n            }\n\n            // array ==>> Ok(Term::Bool(true))\n            }\n\n            // array
+//@canary all-nonbool-accepted :: datalog::expression::Binary::evaluate_with_closure :: Term::Bool(false) => return Ok(Term::Bool(false)),\n                        _ => return Err(error::Expression::InvalidType), ==>> Term::Bool(false) => return Ok(Term::Bool(false)),\n                        _ => {}
+//@canary shadowing-accepted :: datalog::expression::Expression::evaluate :: return Err(error::Expression::ShadowedVariable); ==>> ;
+//@canary-requires datalog::expression::Binary::evaluate_with_closure
 } // verus!
 fn main() {}
